@@ -15,6 +15,7 @@ static unsigned long g_blk[8];
 static unsigned long g_n;
 static int g_inA, g_inB, g_stepA, g_preempt;
 static unsigned long g_bx, g_by; static long g_b2x = -1, g_b2y = -1;
+static int g_preempt2; static unsigned long g_cx, g_cy;   // sameSet mode: second pre-emption point and its union
 static DisjointSet* g_ds;
 static std::vector<std::pair<unsigned long, unsigned long>> g_req;
 static char g_desc[256];
@@ -49,6 +50,7 @@ void vx_yield(void) {
     if (g_inA && !g_inB) {
         g_stepA++;
         if (g_stepA > 400) fail("thread A does not terminate (livelock on a corrupted forest)");
+        if (g_preempt2 > 0 && g_stepA == g_preempt2) { g_inB = 1; g_ds->unionNodes(g_cx, g_cy); g_inB = 0; }
         if (g_stepA == g_preempt) { g_inB = 1; g_ds->unionNodes(g_bx, g_by); if (g_b2x >= 0) g_ds->unionNodes((unsigned long)g_b2x, (unsigned long)g_b2y); g_inB = 0; }
     } else if (g_inB) {
         static int guard; if (++guard > 100000000) fail("thread B does not terminate");
@@ -87,6 +89,35 @@ int main() {
             if (!preempted) break;   // k is beyond A's last atomic step
         }
     }
+    // ---- sameSet answers: A = sameSet(a,b) pre-empted at two points by one union each; the answer must be correct at some instant
+    // of the call: `true` needs a,b related at the end (classes only merge), `false` needs them unrelated at the start
+    g_b2x = -1;
+    for (unsigned long n = 3; n <= 4; n++) {
+        std::vector<std::pair<unsigned long, unsigned long>> pairs;
+        for (unsigned long a = 0; a < n; a++) for (unsigned long b = 0; b < n; b++) if (a != b) pairs.push_back({a, b});
+        for (int pre = -1; pre < (int)pairs.size(); pre++)
+        for (unsigned long a = 0; a < n; a++) for (unsigned long b = 0; b < n; b++)
+        for (auto B1 : pairs) for (auto B2 : pairs) for (int k1 = 1; k1 < 30; k1++) for (int k2 = k1; k2 < 30; k2++) {
+            DisjointSet ds; g_ds = &ds; g_n = 0;
+            for (unsigned long i = 0; i < n; i++) ds.makeNode();
+            std::vector<unsigned long> ref0(n); for (unsigned long i = 0; i < n; i++) ref0[i] = i;
+            if (pre >= 0) { ds.unionNodes(pairs[pre].first, pairs[pre].second); ref0[ref_find(ref0, pairs[pre].first)] = ref_find(ref0, pairs[pre].second); }
+            std::vector<unsigned long> ref2 = ref0;
+            std::snprintf(g_desc, sizeof g_desc, "%lu nodes; prefix %s; A=sameSet(%lu,%lu) pre-empted before its atomic steps %d and %d by unionNodes(%lu,%lu) and unionNodes(%lu,%lu)",
+                    n, pre >= 0 ? "one union" : "none", a, b, k1, k2, B1.first, B1.second, B2.first, B2.second);
+            g_bx = B1.first; g_by = B1.second; g_cx = B2.first; g_cy = B2.second; g_preempt = k1; g_preempt2 = k2 > k1 ? k2 : 0; g_stepA = 0; g_inB = 0; g_inA = 1;
+            bool ans = ds.sameSet(a, b);
+            g_inA = 0; histories++;
+            if (g_stepA >= k1) ref2[ref_find(ref2, B1.first)] = ref_find(ref2, B1.second);
+            if (g_preempt2 > 0 && g_stepA >= k2) ref2[ref_find(ref2, B2.first)] = ref_find(ref2, B2.second);
+            bool at_start = ref_find(ref0, a) == ref_find(ref0, b), at_end = ref_find(ref2, a) == ref_find(ref2, b);
+            if (ans && !at_end) fail("sameSet answered true although the nodes are unrelated even at the end of the call");
+            if (!ans && at_start) fail("sameSet answered false although the nodes were related at every instant of the call");
+            if (g_stepA < k1) { k1 = 1000; break; }
+            if (g_stepA < k2) break;
+        }
+    }
+    g_preempt2 = 0;
     std::printf("explored %ld two-thread histories: forest acyclic and partition = closure of the requested unions in all of them\n", histories);
     return 0;
 }
